@@ -37,6 +37,7 @@ type svc1 interface{ Svc1() }
 type svc2 interface{ Svc2() }
 type svc3 interface{ Svc3() }
 type svc4 interface{ Svc4() }
+type svc5 interface{ Svc5() }
 
 // handlers: pointer receivers, so that a *value* of the right struct type is ill-typed
 type h0 struct{ tag string }
@@ -44,12 +45,14 @@ type h1 struct{ tag string }
 type h2 struct{ tag string }
 type h3 struct{ tag string }
 type h4 struct{ tag string }
+type h5 struct{ tag string }
 
 func (*h0) Svc0() {}
 func (*h1) Svc1() {}
 func (*h2) Svc2() {}
 func (*h3) Svc3() {}
 func (*h4) Svc4() {}
+func (*h5) Svc5() {}
 
 type fileMeta struct {
 	File string
@@ -77,6 +80,10 @@ var pool = []poolEntry{
 	{name: "p.Mixed", htype: (*svc3)(nil), unary: []string{"A", "B"}, streams: []streamDef{{"Bidi", true, true}, {"Neither", false, false}}, metadata: fileMeta{"p/mixed.proto", 3}},
 	// a name that starts with a slash, next to its slash-less namesake p.Unary1
 	{name: "/p.Unary1", htype: (*svc4)(nil), unary: []string{"U1"}, metadata: "slash/unary1.proto", mapOnly: true},
+	// repeated method names: X is unary (twice) AND a stream; Z is a stream listed twice (same flags).
+	// grpc.Server indexes unary methods and streams separately by name. (HandlerMap only: the HTTP
+	// server's mux refuses a repeated path.)
+	{name: "p.Dup", htype: (*svc5)(nil), unary: []string{"X", "X", "Y"}, streams: []streamDef{{"X", true, false}, {"Z", false, true}, {"Z", false, true}}, metadata: "p/dup.proto", mapOnly: true},
 }
 
 const unknownName = "p.Unknown"
@@ -174,6 +181,8 @@ func id(v interface{}) string {
 		return "*h3@" + x.tag
 	case *h4:
 		return "*h4@" + x.tag
+	case *h5:
+		return "*h5@" + x.tag
 	}
 	return fmt.Sprintf("%T", v)
 }
@@ -210,8 +219,10 @@ func goodHandler(i int, tag string) interface{} {
 		return &h2{tag}
 	case 3:
 		return &h3{tag}
+	case 4:
+		return &h4{tag}
 	}
-	return &h4{tag}
+	return &h5{tag}
 }
 
 // illHandler: "other" = a well-formed handler of a different service;
@@ -229,8 +240,10 @@ func illHandler(i int, kind, tag string) interface{} {
 		return h2{tag}
 	case 3:
 		return h3{tag}
+	case 4:
+		return h4{tag}
 	}
-	return h4{tag}
+	return h5{tag}
 }
 
 // ---------------------------------------------------------------- carriers
@@ -568,10 +581,16 @@ func refInfo(m model) map[string]grpc.ServiceInfo {
 	return r
 }
 
+// methodSet: the method infos as a SET (design: "method lists as sets")
 func methodSet(ms []grpc.MethodInfo) string {
 	var s []string
+	seen := map[string]bool{}
 	for _, m := range ms {
-		s = append(s, fmt.Sprintf("%s(c=%v,s=%v)", m.Name, m.IsClientStream, m.IsServerStream))
+		x := fmt.Sprintf("%s(c=%v,s=%v)", m.Name, m.IsClientStream, m.IsServerStream)
+		if !seen[x] {
+			seen[x] = true
+			s = append(s, x)
+		}
 	}
 	sort.Strings(s)
 	return strings.Join(s, " ")
@@ -690,7 +709,7 @@ func main() {
 	}
 
 	// ---------------- BFS
-	const maxDepth = 6
+	const maxDepth = 7
 	states, transitions, traces := 0, 0, 0
 	nontrivial := map[string]bool{}
 	depthReached := 0
@@ -790,11 +809,11 @@ func main() {
 		"reference_grpc_servers_built":  refServers,
 		"evaluations":                   traces + sequences,
 		"distinct_nontrivial":           len(nontrivial),
-		"rule":                          "BFS over (carrier x set of registered names) with 3 registration ops per pool descriptor (good / handler of another service / value of a pointer-receiver type; 5 descriptors on HandlerMap, 4 on the transports) and the read ops (query x every pool name, an unknown name and the near misses of every pool name: leading, trailing, doubled, inner slash, proper prefix, proper suffix, extension, empty; ForEach on HandlerMap; GetServiceInfo); each transition = fresh real object + replay of the shortest path + the op, then the full state oracle. A transition is non-trivial when it is a registration attempt or a read in a non-empty registry; distinct by (carrier, state, op). In addition every sequence of registration attempts up to registration_sequence_length is replayed without state caching.",
+		"rule":                          "BFS over (carrier x set of registered names) with 3 registration ops per pool descriptor (good / handler of another service / value of a pointer-receiver type; 6 descriptors on HandlerMap, 4 on the transports) and the read ops (query x every pool name, an unknown name and the near misses of every pool name: leading, trailing, doubled, inner slash, proper prefix, proper suffix, extension, empty; ForEach on HandlerMap; GetServiceInfo); each transition = fresh real object + replay of the shortest path + the op, then the full state oracle. A transition is non-trivial when it is a registration attempt or a read in a non-empty registry; distinct by (carrier, state, op). In addition every sequence of registration attempts up to registration_sequence_length is replayed without state caching.",
 		"samples":                       samples,
 		"exhaustive":                    frontierEmpty,
 	}, []string{
-		"pool of 4 descriptors (0-2 unary, 0-2 streams covering all four flag pairs, nil/string/struct Metadata) + on HandlerMap a 5th whose ServiceName is \"/p.Unary1\" next to p.Unary1 (such a name cannot be addressed through the transports' /service/method paths, so it is not registered there) + 1 unknown name + near-miss names",
+		"pool of 4 descriptors (0-2 unary, 0-2 streams covering all four flag pairs, nil/string/struct Metadata) + on HandlerMap a 5th whose ServiceName is \"/p.Unary1\" next to p.Unary1 and a 6th, p.Dup, with repeated method names (a unary method listed twice, a stream of the same name as a unary method, a stream listed twice) (such names cannot be addressed through the transports' /service/method paths, so it is not registered there) + 1 unknown name + near-miss names",
 		"on the two transports, lookup is observed by dispatching every method of the service (in-process Invoke/NewStream; HTTP ServeHTTP on a recorder) and identifying descriptor and handler instance that ran",
 		"a nil handler is not part of the ill-typed alphabet (grpc.Server accepts it)",
 	}))
